@@ -284,6 +284,14 @@ func runC20(t *testing.T, id string, steps []c20Step) {
 		sim.SetLabels(p, map[string]string{"managed-by": w.ccName(i)})
 		p["spec"] = sim.Obj{"n": int64(0)}
 		s.MustCreate(sim.ThingInfo.GVR(), p)
+		// two more parents of the same controller, so that its workers start out concurrently
+		for _, suffix := range []string{"x", "y"} {
+			q := sim.DeepCopy(p)
+			sim.SetNested(q, fmt.Sprintf("p%d%s", i, suffix), "metadata", "name")
+			delete(q["metadata"].(map[string]interface{}), "uid")
+			delete(q["metadata"].(map[string]interface{}), "resourceVersion")
+			s.MustCreate(sim.ThingInfo.GVR(), q)
+		}
 	}
 	baseline := w.watchCounts()
 	touch := func(i int) {
